@@ -248,8 +248,9 @@ def parseValue {κ α : Type} (inv : Policy) (f : Field κ α) (x : α) : FieldO
     | .throw => .raise                               -- :1087-1088
 
 /-- `parse_value(value, context, excluded_as_absent=True)` (field.py, after
-`fixes/C11-excluded-as-absent.patch`): as the data loops call it — an excluded value is reported as
-unprovided whether or not a default exists, the loop then treats the field as not given. -/
+`fixes/C11-excluded-as-absent.patch`): as the data loops call it — a value dropped by the `exclude`
+policy is reported as `EXCLUDED` (here `.unprovided`: in fail-fast parsing nothing else is unprovided)
+whether or not a default exists, and the loop then treats the field as not given. -/
 def parseValueAbs {κ α : Type} (inv : Policy) (f : Field κ α) (x : α) : FieldOut α :=
   match f.parse x with
   | some y => .value y
@@ -374,32 +375,41 @@ def findField {κ α : Type} [DecidableEq κ] (k : κ) : List (Field κ α) → 
   | [] => none
   | f :: fs => if f.name = k then some f else findField k fs
 
-/-- what the data loop of `data_first_parse` accumulates: result, addition, dependencies -/
+/-- what the second loop of `data_first_parse` accumulates: result, addition, dependencies, and the names
+the fill loop skips (`name in inputs and name not in excluded`) -/
 structure DAcc (κ α : Type) where
   res : List (κ × α)
   add : List (κ × α)
   deps : List κ
+  given : List κ
 
-/-- the data loop of `data_first_parse` (base.py:457-495) -/
+/-- `data_first_parse` (base.py:444-560, two-phase since a1900c3).  Phase 1 scans the data into `inputs`
+(field, value, alias rank) keeping input order; without aliases / case-insensitive names and with the
+distinct keys of a dict it is the identity, so the model runs phase 2 — the loop over `inputs` in input
+order, additional keys and fields interleaved — directly on the data.  `fix = true`: a value dropped by the
+`exclude` policy (`parse_value` returns `EXCLUDED`) is recorded in `excluded` and the fill loop handles the
+field as not given; `fix = false`: the code before `fixes/C11-excluded-as-absent.patch`. -/
 def dfLoopG {κ α : Type} [DecidableEq κ] (fix : Bool) (inv : Policy) (fields : List (Field κ α)) (a : Addition α) :
     List (κ × α) → Except (DataErr κ) (DAcc κ α)
-  | [] => .ok ⟨[], [], []⟩
+  | [] => .ok ⟨[], [], [], []⟩
   | (k, v) :: rest =>
     match findField k fields with
     | none =>
-      match parseAddition inv a v with                                       -- :460-465
+      match parseAddition inv a v with                                       -- `if field is None`
       | .value y => (dfLoopG fix inv fields a rest).map fun acc => { acc with add := (k, y) :: acc.add }
       | .unprovided => dfLoopG fix inv fields a rest
       | .exceed => .error (.exceed k)
       | .raise => .error (.parse k)
     | some f =>
-      match fieldStep fix inv f v with                                       -- :486-495
+      match fieldStep fix inv f v with
       | .raise => .error (.parse k)
-      | .unprovided => dfLoopG fix inv fields a rest
+      | .unprovided =>
+        if fix then dfLoopG fix inv fields a rest                            -- `excluded.add(name); continue`
+        else (dfLoopG fix inv fields a rest).map fun acc => { acc with given := k :: acc.given }
       | .value y => (dfLoopG fix inv fields a rest).map fun acc =>
-          { acc with res := (k, y) :: acc.res, deps := f.deps ++ acc.deps }
+          { acc with res := (k, y) :: acc.res, deps := f.deps ++ acc.deps, given := k :: acc.given }
 
-/-- the fill loop of `data_first_parse` (base.py:497-511): (defaults, unprovided_fields) -/
+/-- the fill loop of `data_first_parse`: (defaults, unprovided_fields); `present` = given and not excluded -/
 def dfFill {κ α : Type} [DecidableEq κ] (present : List κ) :
     List (Field κ α) → Except (DataErr κ) (List (κ × α) × List κ)
   | [] => .ok ([], [])
@@ -414,10 +424,10 @@ def parseDataDFG {κ α : Type} [DecidableEq κ] (fix : Bool) (inv : Policy) (fi
   match dfLoopG fix inv fields a data with
   | .error e => .error e
   | .ok acc =>
-    match dfFill (acc.res.map (·.1)) fields with
+    match dfFill acc.given fields with
     | .error e => .error e
     | .ok (filled, unprov) =>
-      if depsLack acc.deps unprov (acc.res ++ filled) then .error .dependencies   -- :513-526
+      if depsLack acc.deps unprov (acc.res ++ filled) then .error .dependencies
       else .ok (acc.res ++ filled ++ acc.add)
 
 def dfLoop {κ α : Type} [DecidableEq κ] (inv : Policy) := dfLoopG (κ := κ) (α := α) true inv
